@@ -274,7 +274,8 @@ def load_dataframes_from_strings(schema_data):
     Returns:
         schema_data(dict): A dict with the same keys as schema_data, but values are dataframes if not before
     """
-    return {key: value if isinstance(value, pd.DataFrame) else pd.read_csv(io.StringIO(value), sep="\t",
+    # Frames handed over directly get the same treatment of missing cells as text read with na_filter=False.
+    return {key: value.fillna("") if isinstance(value, pd.DataFrame) else pd.read_csv(io.StringIO(value), sep="\t",
                                                                            dtype=str, na_filter=False,
                                                                            quoting=csv.QUOTE_NONE)
             for key, value in schema_data.items()}
